@@ -95,7 +95,7 @@ def cases(tier, seed, prop):
     out = [{'s': s, 'g': 'exh'} for s in gens.all_strings(gens.MATH_ALPHA, L)]
     n = 8000 if tier == 'quick' else 100000
     for _ in range(n // 2):
-        out.append({'s': ''.join(rnd.choice(gens.MATH_ALPHA + ['10', '0', '.5', '(1+2)', '-', 'a', '٣', '()', '(2)', ')(', '(3)(4)', '+()']) for _ in range(rnd.randint(6, 14))), 'g': 'rand'})
+        out.append({'s': ''.join(rnd.choice(gens.MATH_ALPHA + ['10', '0', '.5', '(1+2)', '-', 'a', '٣', '()', '(2)', ')(', '(3)(4)', '+()', 'foo', ' = ', 'x', '$', ',', '))', ') )', '1.2.3', '..']) for _ in range(rnd.randint(6, 14))), 'g': 'rand'})
     for _ in range(n):
         t, v, f = gen_expr(rnd, 3, [rnd.randint(0, 9)])
         # an evaluation order that divides by zero in a sub-term the spec also flags; mixed outcomes are compared as given
@@ -131,7 +131,7 @@ def err(e):
 ALLOWED = set('0123456789.+-*/\\() \t\xa0\n\r')
 
 
-def oracle_extract(text, pos, r):
+def oracle_extract(text, pos, r, la=True, ws=True):
     if r is None: return []
     v = []
     try:
@@ -142,12 +142,12 @@ def oracle_extract(text, pos, r):
     if not (isinstance(s, int) and isinstance(e, int) and 0 <= s <= e <= n): return ['extract-range| extract(%r, %d) = %r violates 0<=start<=end<=%d' % (text, pos, r, n)]
     # look-ahead: only when the character at pos is ')': closing parentheses and white space
     exp_end = pos
-    if pos < n and text[pos] == ')':
+    if la and pos < n and text[pos] == ')':
         exp_end = pos + 1
-        while exp_end < n and (text[exp_end] == ')' or text[exp_end] in ' \t\xa0\n\r'): exp_end += 1
+        while exp_end < n and (text[exp_end] == ')' or (ws and text[exp_end] in ' \t\xa0\n\r')): exp_end += 1
     if e != exp_end: v.append('extract-end| extract(%r, %d) ends at %d, the look-ahead adjusted position is %d' % (text, pos, e, exp_end))
     seg = text[s:e]
-    bad = [c for c in seg if c not in ALLOWED and not c.isdecimal()]
+    bad = [c for c in seg if (c not in ALLOWED and not c.isdecimal()) or (not ws and c in ' \t\xa0\n\r')]
     if bad: v.append('extract-chars| extract(%r, %d) = %r contains %r' % (text, pos, seg, bad[0]))
     depth = 0
     for c in seg:
@@ -224,14 +224,20 @@ def run(case, prop):
                     viol.append('float-floor| %r evaluates to %r, ordinary arithmetic gives %s (the double quotient falls on the other side of an integer)' % (s, val, w))
                 else: viol.append('value| %r evaluates to %r, ordinary arithmetic gives %s' % (s, val, w))
     # extract clause: every position of the text
-    for pos in range(0, len(s) + 1):
-        try:
-            r = extract(s, pos)
-            viol += oracle_extract(s, pos, r)
-        except RecursionError: raise
-        except Exception as ex:
-            viol.append('extract-raised| extract(%r, %d) raised %s' % (s, pos, type(ex).__name__))
-    return p + ' || ' + e, viol[:4], tags
+    x = ''
+    for la, ws in ((True, True), (True, False), (False, True), (False, False)):
+        o = None if (la and ws) else {'lookAhead': la, 'whitespace': ws}
+        for pos in range(0, len(s) + 1):
+            try:
+                r = extract(s, pos, o) if o else extract(s, pos)
+                viol += ['%s  [options %r]' % (m, o) if o else m for m in oracle_extract(s, pos, r, la, ws)]
+                x += 'N ' if r is None else '%d-%d ' % tuple(r)
+                if r is not None: tags['extract:found'] = tags.get('extract:found', 0) + 1
+            except RecursionError: raise
+            except Exception as ex:
+                viol.append('extract-raised| extract(%r, %d, %r) raised %s' % (s, pos, o, type(ex).__name__)); x += 'E '
+        x += '/ '
+    return p + ' || ' + e + ' || ' + x.rstrip(), viol[:4], tags
 
 
 def compare(case, line, ml):
@@ -240,7 +246,7 @@ def compare(case, line, ml):
     if vlib.unmodelled_text(s, case=False): return None
     if any(len(run_) > 15 for run_ in __import__('re').findall(r'[0-9.]+', s)): return None     # beyond exact doubles
     a, b = line.split(' || '), ml.split(' || ')
-    if len(a) != 2 or len(b) != 2 or a[0] != b[0]: return False
+    if len(a) != 3 or len(b) != 3 or a[0] != b[0] or a[2] != b[2]: return False
     if a[1] == b[1]: return True
     if a[1].startswith('ok ') and b[1].startswith('ok ') and a[1] != 'ok None' and b[1] != 'ok None':
         py = F(a[1][3:]) if a[1][3:] not in ('inf', '-inf', 'nan') else None
